@@ -1313,6 +1313,163 @@ collect:
 	}
 }
 
+// ---- shutdown (groupChain.Close) interleaved with a writer, then a restart over the same files ----
+// mode A: the writer is parked before its k-th store write (inside the write lock) and Close is called
+//
+//	from a second goroutine; Close either waits for the writer (fine) or closes the store under it.
+//
+// mode B: Close is parked before its own j-th store write (it has none on the code as it stands) while the
+//
+//	writer runs to completion; then Close is released.
+//
+// Afterwards initGroupChain runs on the same files and the whole property is evaluated on the result.
+func runClose(res *hx.Result, U int, prefix []Op, w Op, k int, modeB bool) {
+	names := make([]string, len(prefix))
+	for i, o := range prefix {
+		names[i] = o.String()
+	}
+	var sched []string
+	desc := func() interface{} {
+		return map[string]interface{}{"genesis": "id 1, PreGroup nil", "sequential-prefix": names, "schedule": sched}
+	}
+	tag := fmt.Sprintf("%s@write%d", w.kind(), k)
+	if modeB {
+		tag = fmt.Sprintf("%s@closewrite%d", w.kind(), k)
+	}
+	freshStore(U)
+	for _, o := range prefix {
+		if _, pan := applySafe(o); pan != nil {
+			res.Violate("C19/shutdown:panic:"+tag, fmt.Sprint("panic in the sequential prefix: ", pan), desc())
+			return
+		}
+	}
+	finish := func(class string) {
+		var pan interface{}
+		func() {
+			defer func() { pan = recover() }()
+			reinit(true) // the chain is shut down already: this is initGroupChain on the same files
+		}()
+		if pan != nil {
+			key := "C19/shutdown:close-during-op:" + tag
+			if modeB {
+				key = "C19/shutdown:close-writes-stale-tip:" + tag
+			}
+			res.Violate(key, fmt.Sprint("the node does not start again: initGroupChain panics: ", pan), desc())
+			res.Count("shutdown:"+tag+":"+class+":restart-panics", "cl;"+strings.Join(names, ";")+"|"+tag, true)
+			return // the next scenario starts by wiping the store
+		}
+		sched = append(sched, "initGroupChain on the same files")
+		key := "C19/shutdown:close-during-op:" + tag
+		if modeB {
+			key = "C19/shutdown:close-writes-stale-tip:" + tag
+		}
+		for _, b := range intrinsic(U, observe(U, 0), false) {
+			res.Violate(key, "after the restart: "+b, desc())
+		}
+		res.Count("shutdown:"+tag+":"+class, "cl;"+strings.Join(names, ";")+"|"+tag, true)
+	}
+	sd := &stepDB{armed: !modeB, k: k, entered: make(chan struct{}), release: make(chan struct{})}
+	core.VerifGCWrapStore(func(d db.Database) db.Database { sd.Database = d; return sd })
+	closeDone := make(chan interface{}, 1)
+	doClose := func() {
+		go func() {
+			var pan interface{}
+			func() {
+				defer func() { pan = recover() }()
+				core.VerifGCShutdown()
+			}()
+			closeDone <- pan
+		}()
+	}
+	if modeB {
+		sd.mu.Lock()
+		sd.n, sd.armed = 0, true
+		sd.mu.Unlock()
+		doClose()
+		select {
+		case pan := <-closeDone:
+			if pan != nil {
+				res.Violate("C19/shutdown:panic:"+tag, fmt.Sprint("Close panics: ", pan), desc())
+			}
+			sched = append(sched, "Close makes fewer store writes than that and returns")
+			finish("close-has-no-such-write")
+			return
+		case <-sd.entered:
+			sched = append(sched, fmt.Sprintf("G1 Close() held before its store write %d (its arguments are evaluated)", k))
+		case <-time.After(schedStuck):
+			res.Violate("C19/shutdown:stuck:"+tag, "Close neither reached a store write nor returned", desc())
+			close(sd.release)
+			return
+		}
+		wDone := make(chan interface{}, 1)
+		go func() { _, pan := applySafe(w); wDone <- pan }()
+		select {
+		case pan := <-wDone:
+			if pan != nil {
+				res.Violate("C19/shutdown:panic:"+tag, fmt.Sprint("panic: ", pan), desc())
+			}
+			sched = append(sched, "G2 "+w.String()+" runs to completion")
+		case <-time.After(2 * time.Second):
+			sched = append(sched, "G2 "+w.String()+" waits for Close")
+		}
+		close(sd.release)
+		if pan := <-closeDone; pan != nil {
+			res.Violate("C19/shutdown:panic:"+tag, fmt.Sprint("Close panics: ", pan), desc())
+		}
+		sched = append(sched, "G1 released: Close() returns")
+		select {
+		case <-wDone:
+		default:
+		}
+		finish("close-parked")
+		return
+	}
+	// mode A
+	wDone := make(chan interface{}, 1)
+	go func() { _, pan := applySafe(w); wDone <- pan }()
+	select {
+	case <-sd.entered:
+		sched = append(sched, fmt.Sprintf("G1 %s held before its store write %d (inside the write lock)", w.String(), k))
+	case pan := <-wDone:
+		if pan != nil {
+			res.Violate("C19/shutdown:panic:"+tag, fmt.Sprint("panic: ", pan), desc())
+		}
+		core.VerifGCShutdown()
+		finish("writer-made-fewer-writes")
+		return
+	case <-time.After(schedStuck):
+		res.Violate("C19/shutdown:stuck:"+tag, "the writer neither reached the store write nor returned", desc())
+		close(sd.release)
+		return
+	}
+	doClose()
+	class := "close-waited-for-the-writer"
+	closed := false
+	select {
+	case pan := <-closeDone:
+		closed = true
+		if pan != nil {
+			res.Violate("C19/shutdown:panic:"+tag, fmt.Sprint("Close panics: ", pan), desc())
+		}
+		class = "close-did-not-wait"
+		sched = append(sched, "G2 Close() returns while the writer is in the middle of its writes")
+	case <-time.After(readerGrace):
+		sched = append(sched, "G2 Close() waits for the writer")
+	}
+	close(sd.release)
+	if pan := <-wDone; pan != nil {
+		res.Violate("C19/shutdown:panic:"+tag, fmt.Sprint("the writer panics: ", pan), desc())
+	}
+	sched = append(sched, "G1 released: the writer returns")
+	if !closed {
+		if pan := <-closeDone; pan != nil {
+			res.Violate("C19/shutdown:panic:"+tag, fmt.Sprint("Close panics: ", pan), desc())
+		}
+		sched = append(sched, "G2 Close() returns")
+	}
+	finish(class)
+}
+
 // ---- key-space collisions: a group whose id is a key of another kind (8-byte height key, "gcurrent",
 // "gcount"); only reachable with a CheckGroup that accepts such an id (the real one demands
 // g.Id = NewIDFromPubkey(gpk).Serialize(), 32 bytes), so nothing here is reported as a violation: the
@@ -1633,6 +1790,18 @@ func main() {
 	runReaders(res, 7, []Op{add(2, 1, 1), add(3, 2, 1), add(4, 3, 1)}, Op{K: opRemoveFrom, H: 0}, 5)
 	runReaders(res, 7, []Op{add(2, 1, 1), add(3, 2, 1), add(4, 3, 1)}, Op{K: opRemoveFrom, H: 0}, 10)
 	res.Note(fmt.Sprintf("locked readers: AddGroup / remove(last) are parked before each of their four store writes (and removeFromCommonAncestor inside its 2nd and 3rd removal) through a store wrapper, i.e. inside the write lock; GetGroupById, GetGroupByHeight, GetSyncGroupsByHeight, GetSyncGroupsById and Iterator.MovePre are each called from their own goroutine; one that returns within %v (before the writer is released) is reported with what it saw; one that is merely slow counts as waiting", readerGrace))
+	// shutdown interleaved with a writer, then restart
+	for k := 0; k < 4; k++ {
+		runClose(res, 7, []Op{add(2, 1, 1), add(3, 2, 1)}, add(4, 3, 2), k, false)
+		runClose(res, 7, []Op{add(2, 1, 1), add(3, 2, 1)}, Op{K: opRemoveLast}, k, false)
+	}
+	runClose(res, 7, []Op{add(2, 1, 1), add(3, 2, 1), add(4, 3, 1)}, Op{K: opRemoveFrom, H: 0}, 6, false)
+	for j := 0; j < 2; j++ {
+		runClose(res, 7, []Op{add(2, 1, 1), add(3, 2, 1)}, add(4, 3, 2), j, true)
+		runClose(res, 7, []Op{add(2, 1, 1), add(3, 2, 1)}, Op{K: opRemoveLast}, j, true)
+		runClose(res, 7, []Op{add(2, 1, 1), add(3, 2, 1), add(4, 3, 1)}, Op{K: opRemoveFrom, H: 0}, j, true)
+	}
+	res.Note("shutdown: groupChain.Close() (through the hook's shutdown) is interleaved with AddGroup / remove(last) / removeFromCommonAncestor at each store write of the writer (mode A) and at each store write of Close itself, of which the code as it stands has none (mode B); then initGroupChain runs on the same files and the whole property is evaluated. Cold restarts of the sequential histories are Close + initGroupChain, warm ones initGroupChain on the open store")
 	// key-space collisions
 	kc := hx.NewCasesNamed(a.Out, "keys", "From V.C19 Require Import KeyModel Harness.\nOpen Scope N_scope.",
 		"list N * list N * N * N * bool * bool * bool", "check_keys", 100)
